@@ -154,7 +154,8 @@ fn gen_mutation(rng: &mut Rng, raw_bias: bool) -> Mutation {
     match rng.weighted(&w) {
         0 => Mutation::Flip { pos: rng.u32(), bit: rng.below(8) as u8 },
         1 => Mutation::Set { pos: rng.u32(), val: *rng.pick(&[0u8, 0xff, 1, 0x80]) ^ if rng.chance(1, 3) { rng.below(256) as u8 } else { 0 } },
-        2 => Mutation::Trunc { keep: rng.u32() },
+        // emptied now and then: an empty message is the one truncation a length-driven decoder may take for 'absent'
+        2 => Mutation::Trunc { keep: if rng.chance(1, 4) { 0 } else { rng.u32() } },
         3 => {
             let n = 1 + rng.usize_below(9);
             Mutation::Extend { extra: Hx(rng.bytes(n)) }
@@ -300,6 +301,18 @@ fn gen_plan_inner(id: &str, seed: u64, _run: u64, tier: Tier) -> PlanA {
                 p.aps = vec![vec!["0".into(), "1".into()]];
                 // threshold in `agg.batches[0]`-independent field: reuse `inst.weight`
                 p.inst.weight = 1 + rng.below(k as u64) as u32;
+            } else if bits >= 7 && rng.chance(1, 10) {
+                // one long candidate list (65 .. 700 prefixes: more than any evaluation window, run or cache size a
+                // refactor might introduce), a run of consecutive prefixes around one report's path, at an inner or
+                // the leaf level
+                let plen = (7 + rng.usize_below(4)).min(bits);
+                let total = 1usize << plen;
+                let want = (*rng.pick(&[65usize, 100, 128, 129, 200, 256, 257, 300, 512, 513, 700])).min(total);
+                let m = &inputs[rng.usize_below(inputs.len())];
+                let on: usize = m[..plen].iter().fold(0usize, |a, b| (a << 1) | (b.0 != 0) as usize);
+                let at = rng.usize_below(want);
+                let lo = on.saturating_sub(at).min(total - want);
+                p.aps = vec![(lo..lo + want).map(|v| (0..plen).map(|i| if (v >> (plen - 1 - i)) & 1 == 1 { '1' } else { '0' }).collect()).collect()];
             } else {
                 p.aps = crate::inst_poplar::gen_ap_history(rng, &p.inst, &inputs, 4, 12);
             }
@@ -478,6 +491,35 @@ fn gen_plan_inner(id: &str, seed: u64, _run: u64, tier: Tier) -> PlanA {
                     };
                     p.faults.push(f);
                 }
+            }
+            // the same alteration on BOTH senders' verifier shares of one round (emptied, truncated, extended, a byte
+            // set): what one sender's share cannot do alone, two equal ones sometimes can
+            if !byz && rng.chance(1, 8) {
+                let rep = rng.below(k as u64) as u32;
+                let ap = rng.below(naps as u64) as u32;
+                let round = rng.below(2) as u8;
+                let m = match rng.below(4) {
+                    0 | 1 => Mutation::Trunc { keep: 0 },
+                    2 => Mutation::Trunc { keep: rng.u32() },
+                    _ => gen_mutation(rng, true),
+                };
+                for j in 0..2u8 {
+                    p.faults.push(Fault { kind: EnvKind::VShare, rep, ap, from: j, to: COMBINER, round, at_source: false, act: Act::Mutate { part: 0, m: m.clone() } });
+                }
+            }
+            // a client that makes ONE aggregator's round-two share trivially zero (A = B = 0 at the queried level)
+            // and an adversary that loses the other aggregator's share of that round
+            if (byz || both) && !split && rng.chance(1, 8) {
+                let victim = if long || single { victim_pre } else { 0 };
+                let api = rng.usize_below(p.aps.len());
+                let level = (p.aps[api][0].len() - 1) as u16;
+                let agg = rng.below(2) as u8;
+                if p.reports[victim].byz.is_empty() {
+                    p.reports[victim].byz.push(ByzEdit::Payload { level, beta: rng.pick(&["2", "-1", "rand"]).to_string(), consistent: true });
+                }
+                p.reports[victim].byz.push(ByzEdit::ZeroCorr { agg, level });
+                p.faults.push(Fault { kind: EnvKind::VShare, rep: victim as u32, ap: api as u32, from: 1 - agg, to: COMBINER, round: 1, at_source: false, act: Act::Drop });
+                p.timeouts = true;
             }
             let events = k * p.aps.len() * 12 + 8;
             if rng.chance(1, 2) {
